@@ -51,6 +51,10 @@ def linear(node: ast.AST | None) -> tuple[str, int] | None:
     return None
 
 
+def _LEN_OF(node: ast.AST) -> tuple[str, int] | None:
+    return _len_of(node)
+
+
 def _len_of(node: ast.AST) -> tuple[str, int] | None:
     """`len(L)`, `len(L) - c`, `len(L) + c` -> (L, c)."""
     if isinstance(node, ast.Call) and isinstance(node.func, ast.Name) and node.func.id == "len" and len(node.args) == 1:
@@ -125,9 +129,17 @@ class Progress:
             x = stmt.target.id
             if x in st:
                 if c is not None and isinstance(stmt.op, (ast.Add, ast.Sub)) and st[x] is not None:
-                    st[x] = st[x] + (c if isinstance(stmt.op, ast.Add) else -c)
+                    st[x] = st[x] + (c if isinstance(stmt.op, ast.Add) else -c) * self.__dict__.get("_sign", 1)
                 else:
                     st[x] = None
+            return st
+        if self.__dict__.get("_sign", 1) < 0 and isinstance(stmt, (ast.Assign, ast.AnnAssign)) and stmt.value is not None:
+            # a cursor that walks down: only `x -= c` is followed, any other assignment to a tracked name loses it
+            for t in (stmt.targets if isinstance(stmt, ast.Assign) else [stmt.target]):
+                for nm in ast.walk(t):
+                    if isinstance(nm, ast.Name) and nm.id in st:
+                        lin = linear(stmt.value)
+                        st[nm.id] = (st[lin[0]] - lin[1]) if (lin and lin[0] in st and st[lin[0]] is not None and isinstance(t, ast.Name)) else None
             return st
         if isinstance(stmt, (ast.Assign, ast.AnnAssign)) and stmt.value is not None:
             targets = stmt.targets if isinstance(stmt, ast.Assign) else [stmt.target]
@@ -218,26 +230,33 @@ class Progress:
             self._cg = CallGraph(self.prog)
         cg = self._cg
         out = [c for c, kind in cg.callees_of_call(fn, call) if isinstance(c, FunctionInfo) and kind != "cha"]
-        if not out and isinstance(call.func, ast.Attribute) and isinstance(call.func.value, ast.Name):
-            # `record.reader(...)` where `record` iterates a module-level list of constructor calls holding functions
-            recv = call.func.value.id
-            for loop in walk_no_nested(fn.node):
-                if isinstance(loop, ast.For) and isinstance(loop.target, ast.Name) and loop.target.id == recv and isinstance(loop.iter, ast.Name):
-                    table = fn.module.assigns.get(loop.iter.id)
-                    if isinstance(table, (ast.List, ast.Tuple)):
-                        for el in table.elts:
-                            if isinstance(el, ast.Call):
-                                rec = self.prog.resolve(fn.module, dotted(el.func) or "")
-                                fields = list(self.prog.classes[rec].class_annots) if rec in self.prog.classes else []
-                                attr = call.func.attr
-                                cand = []
-                                if attr in fields and fields.index(attr) < len(el.args):
-                                    cand.append(el.args[fields.index(attr)])
-                                cand += [k.value for k in el.keywords if k.arg == attr]
-                                for a in cand:
-                                    full = self.prog.resolve(fn.module, dotted(a) or "") if dotted(a) else None
-                                    if full in self.prog.functions:
-                                        out.append(self.prog.functions[full])
+        if not out and isinstance(call.func, ast.Attribute):
+            # `record.reader(...)`: a function stored in a field of a record class.  Field-based resolution: every function that any constructor
+            # call of a class declaring that field (restricted to the receiver's class when it is known) puts into it, anywhere in the program.
+            attr = call.func.attr
+            known = {c.qualname for c in cg.type_of(fn, call.func.value)}
+            holders = [c for c in self.prog.classes.values() if attr in c.class_annots and (not known or c.qualname in known)]
+            if holders:
+                ctor_index = self.__dict__.get("_ctor_index")
+                if ctor_index is None:
+                    ctor_index = self._ctor_index = {}
+                    for mod in self.prog.modules.values():
+                        for n in ast.walk(mod.tree):
+                            if isinstance(n, ast.Call) and dotted(n.func):
+                                full = self.prog.resolve(mod, dotted(n.func))
+                                if full in self.prog.classes:
+                                    ctor_index.setdefault(full, []).append((mod, n))
+                for c in holders:
+                    fields = list(c.class_annots)
+                    for mod, el in ctor_index.get(c.qualname, []):
+                        cand = []
+                        if fields.index(attr) < len(el.args):
+                            cand.append(el.args[fields.index(attr)])
+                        cand += [k.value for k in el.keywords if k.arg == attr]
+                        for a in cand:
+                            full = self.prog.resolve(mod, dotted(a) or "") if dotted(a) else None
+                            if full in self.prog.functions:
+                                out.append(self.prog.functions[full])
         res = list(dict.fromkeys(out))
         memo[id(call)] = (call, res)
         return res
@@ -307,11 +326,25 @@ class Progress:
         cursors = [x for x in dict.fromkeys(names) if x in assigned]
         out = []
         body_starts = [b for b, lab in cfg.succ[head] if lab == "T"]
+        # direction: a cursor the test bounds from below (`x > e`, `x >= e`, `e < x` with e not assigned in the loop) walks down
+        down: set[str] = set()
+        for atom, truth in implied(head.stmt.test, True):
+            if isinstance(atom, ast.Compare) and len(atom.ops) == 1 and truth:
+                l_, r_, op = atom.left, atom.comparators[0], atom.ops[0]
+                lo = None
+                if isinstance(op, (ast.Gt, ast.GtE)) and isinstance(l_, ast.Name):
+                    lo = (l_.id, r_)
+                elif isinstance(op, (ast.Lt, ast.LtE)) and isinstance(r_, ast.Name):
+                    lo = (r_.id, l_)
+                if lo is not None and not ({n.id for n in ast.walk(lo[1]) if isinstance(n, ast.Name)} & assigned):
+                    down.add(lo[0])
         for x in cursors:
             init = {x: 0}
+            self._sign = -1 if x in down else 1
             _state, back = forward(cfg, [(b, dict(init)) for b in body_starts], lambda n, s: self._transfer(fn, n, s), lambda a, b, lab, s: s, _join_min,
                                    stop=lambda n: n is head)
             if not back:
+                self._sign = 1
                 out.append((x, True, "no path returns to the loop head"))
                 continue
             worst = None
@@ -321,8 +354,10 @@ class Progress:
                 if v is None or v < 1:
                     worst, bad_src = v, a
                     break
+            self._sign = 1
             if bad_src is None:
-                out.append((x, True, f"every path back to the head advances `{x}` by at least {min(st.get(x) for _a, _b, st in back)}"))
+                out.append((x, True, f"every path back to the head {'lowers' if x in down else 'advances'} `{x}` by at least {min(st.get(x) for _a, _b, st in back)}"
+                            + (" towards the lower bound in the loop test" if x in down else "")))
             else:
                 out.append((x, False, f"a path back to the loop head (through line {bad_src.lineno}) advances `{x}` by "
                                       f"{'an unknown amount' if worst is None else worst}: the loop need not make progress"))
@@ -374,7 +409,21 @@ class Slack:
         if not (isinstance(atom, ast.Compare) and len(atom.ops) == 1):
             return
         op, left, right = atom.ops[0], atom.left, atom.comparators[0]
+
+        def _len_of(node: ast.AST, st=st) -> tuple[str, int] | None:  # noqa: F811 - `end`, `end - 1` where `end <= len(L) + d` is known
+            got = _LEN_OF(node)
+            if got is not None:
+                return got
+            lin_ = linear(node)
+            if lin_ is not None and st.get(("len", lin_[0])) is not None:
+                L_, d_ = st[("len", lin_[0])]
+                return L_, d_ + lin_[1]
+            return None
+
+        upper_only = _LEN_OF(right) is None and _LEN_OF(left) is None  # through an alias only an upper bound of the length side is known
         lin, ln = linear(left), _len_of(right)
+        if lin is not None and st.get(("len", lin[0])) is not None and ln is None:
+            lin = None  # the alias itself on the left: try the mirrored form
         if lin is None or ln is None:
             # mirrored form len(L) > x
             lin2, ln2 = linear(right), _len_of(left)
@@ -391,6 +440,8 @@ class Slack:
         key = (x, L)
         cur = st.get(key)
         new = None
+        if upper_only and not ((isinstance(op, (ast.Lt, ast.LtE)) and truth) or (isinstance(op, (ast.Gt, ast.GtE)) and not truth)):
+            return  # `x == end`, `x != end` say nothing about len(L) when only `end <= len(L) + d` is known
         # normalise to  x + s < len(L)
         if isinstance(op, ast.Lt):  # x + c < len + d  <=> x + (c - d) < len
             new = (c - d) if truth else None
@@ -415,7 +466,15 @@ class Slack:
         if n.kind == "stmt" and s is not None:
             if isinstance(s, ast.AugAssign) and isinstance(s.target, ast.Name):
                 c = _const_int(s.value)
+                lk = ("len", s.target.id)
+                if lk in st:
+                    if st[lk] is not None and c is not None and isinstance(s.op, (ast.Add, ast.Sub)):
+                        st[lk] = (st[lk][0], st[lk][1] + (c if isinstance(s.op, ast.Add) else -c))
+                    else:
+                        del st[lk]
                 for key in list(st):
+                    if key[0] == "len":
+                        continue
                     if key[0] == s.target.id:
                         st[key] = (st[key] - c) if (st[key] is not None and c is not None and isinstance(s.op, ast.Add)) else (
                             (st[key] + c) if (st[key] is not None and c is not None and isinstance(s.op, ast.Sub)) else None)
@@ -425,10 +484,20 @@ class Slack:
                     for nm in [x.id for x in ast.walk(t) if isinstance(x, ast.Name)]:
                         lin = linear(s.value) if isinstance(t, ast.Name) else None
                         for key in list(st):
+                            if key[0] == "len":
+                                if key[1] == nm or (st[key] is not None and st[key][0] == nm):
+                                    del st[key]
+                                continue
                             if key[0] == nm:
                                 del st[key]
                             if key[1] == nm:
                                 del st[key]
+                        if isinstance(t, ast.Name) and _LEN_OF(s.value) is not None and _LEN_OF(s.value)[0] in self.lists:
+                            st[("len", nm)] = _LEN_OF(s.value)  # nm == len(L) + d, kept as the upper bound nm <= len(L) + d
+                        if isinstance(t, ast.Name) and isinstance(s.value, ast.Call):
+                            ret = self._return_slack(n, s.value, dict(st))
+                            if ret is not None:
+                                st[(nm, ret[0])] = ret[1]
                         if lin is not None:
                             for key, v in list(st.items()):
                                 if key[0] == lin[0] and v is not None:
@@ -436,9 +505,46 @@ class Slack:
         elif n.kind == "for" and isinstance(s, ast.For):
             for nm in [x.id for x in ast.walk(s.target) if isinstance(x, ast.Name)]:
                 for key in list(st):
-                    if key[0] == nm:
+                    if key[0] == nm or (key[0] == "len" and key[1] == nm):
                         del st[key]
         return st
+
+    def _return_slack(self, cn: CNode, call: ast.Call, st_here: dict) -> tuple[str, int] | None:
+        """`x = g(L, e, ...)` with g a module-level function of the repository: (L, s) when every `return r` of g satisfies r + s < len(<its list
+        parameter>) given what is known about the arguments at the call (g analysed with those facts as entry assumptions)."""
+        if self.__dict__.get("_in_summary", 0) > 2 or not dotted(call.func):
+            return None
+        g = self.prog.functions.get(self.prog.resolve(self.fn.module, dotted(call.func)) or "")
+        if g is None or g.cls is not None or g is self.fn or call.keywords and any(k.arg is None for k in call.keywords):
+            return None
+        a = g.node.args
+        pos = [x.arg for x in (*a.posonlyargs, *a.args)]
+        bound = dict(zip(pos, call.args))
+        bound.update({k.arg: k.value for k in call.keywords if k.arg})
+        list_params = [(p, unparse(v)) for p, v in bound.items() if unparse(v) in self.lists]
+        if len(list_params) != 1:
+            return None
+        lp, L = list_params[0]
+        assume = {}
+        for p, v in bound.items():
+            lin = linear(v)
+            if p != lp and lin is not None and st_here.get((lin[0], L)) is not None:
+                assume[(p, lp)] = st_here[(lin[0], L)] - lin[1]
+        self._in_summary = self.__dict__.get("_in_summary", 0) + 1
+        try:
+            sub = Slack(self.prog, g, assume, lists={lp})
+        finally:
+            self._in_summary -= 1
+        worst = None
+        for rn in sub.cfg.live_nodes():
+            if rn.kind != "return" or not isinstance(rn.stmt, ast.Return):
+                continue
+            lin = linear(rn.stmt.value) if rn.stmt.value is not None else None
+            v = (sub.state_in.get(rn) or {}).get((lin[0], lp)) if lin is not None else None
+            if v is None:
+                return None
+            worst = v - lin[1] if worst is None else min(worst, v - lin[1])
+        return (L, worst) if worst is not None else None
 
     def _edge(self, a: CNode, b: CNode, label: str, st: dict) -> dict | None:
         if a in self.skip_heads:
@@ -455,6 +561,10 @@ class Slack:
         out = {}
         for k in set(a) & set(b):
             va, vb = a[k], b[k]
+            if k[0] == "len":
+                if va is not None and vb is not None and va[0] == vb[0]:
+                    out[k] = (va[0], max(va[1], vb[1]))  # name <= len(L) + d on both paths: keep the weaker bound
+                continue
             out[k] = None if va is None or vb is None else min(va, vb)
         return out
 
